@@ -26,6 +26,9 @@ class C17Bounded(Bounded):
             "values_exclude_a_then_wildcard": {"vars": VARS, "transformations": [{"type": "value_placeholders", "exclude": ["a"]}, {"type": "wildcard_placeholders"}]},
             "wildcard_all": {"transformations": [{"type": "wildcard_placeholders"}]},
             "missing_var": {"vars": {"a": ["A1"]}, "transformations": [{"type": "value_placeholders"}]},
+            # a transformation that turns strings into regular expressions BEFORE the placeholders are replaced: a value that still holds a
+            # placeholder cannot be rendered by it (an error naming the placeholder) - never the stub as text
+            "regex_then_values": {"vars": VARS, "transformations": [{"type": "regex"}, {"type": "value_placeholders"}]},
         }
         ev = nontriv = 0
         seen, fails, samples = {}, [], []
@@ -58,6 +61,8 @@ class C17Bounded(Bounded):
                 if pos.startswith("regex") and ("*" in v or "\\" in v):
                     continue
                 for pname, pd in pipes.items():
+                    if pname == "regex_then_values" and pos.startswith("regex"):
+                        continue          # (the regex transformation leaves regular expressions alone; the placeholder step then resolves them)
                     ev += 1
                     nph = len(re.findall(r"(?<!\\)%[abc]%", v))
                     if nph:
